@@ -2,7 +2,7 @@
 import re
 
 from analysis import (Prov, Guards, fmt, fmt_short, walk, roots, short, comparison, find_calls, callee_matches,
-                      must_pass, path_to, describe_path, linear, normalised_cmp, const_int_of, cmp_intervals, edge_label, canon)
+                      must_pass, path_to, describe_path, linear, normalised_cmp, const_int_of, cmp_intervals, edge_label, canon, closures_of, closure_return_in_caller_terms)
 from facts import AnchorError, strip_closure
 from harness import Rule, guarded
 
@@ -56,7 +56,8 @@ def r1(ctx):
         rule.check(ok, "entries stored into self.iter have been sorted", "closest|unsorted",
                    "ClosestIter::next yields a bucket's entries without sorting them by distance to the target", loc=nx.loc(nx.line))
     # comparator
-    cmps = facts.find(r"<crate::kbucket::ClosestIter<.*> as std::iter::Iterator>::next::\{closure#\d+\}")
+    # the closures built in next() (wherever their bodies are filed: the sort may sit in a helper that was inlined)
+    cmps = [cb for cb, cp, tc in closures_of(facts, nx)] or facts.find(r"<crate::kbucket::ClosestIter<.*> as std::iter::Iterator>::next::\{closure#\d+\}")
     good = 0
     for cb in cmps:
         if cb.arg_count != 3:
@@ -130,6 +131,16 @@ def closure_polarity(facts, fn):
             pol = (not neg)
         elif f_has and not t_has:
             pol = neg
+    if not somes:
+        # `range.find(|&i| [!]distance.bit(i)).map(BucketIndex)`: a predicate closure; the index found is wrapped outside
+        ret = canon(p.local(0))
+        bt = bit_test(ret)
+        ob = facts.one(re.escape(fn))
+        oe = Prov(ob, facts).local(0)
+        wrapped = any(x[0] == "call" and short(x[1]).endswith("Option::map") and len(x[2]) == 2 and x[2][1][0] == "const" and "BucketIndex" in str(x[2][1][1]) and
+                      any(y[0] == "call" and re.search(r"Iterator>?::find$", short(y[1])) for y in walk(x[2][0])) for x in walk(oe))
+        if bt is not None and set(roots(bt[0])) == {("param", 2, cb.local_name(2) or "arg2")} and wrapped:
+            return cb, (not bt[1]), True
     return cb, pol, ok_payload and bool(somes)
 
 
@@ -397,6 +408,16 @@ def r3(ctx):
                     zero_edges.append((bi, f if nc[2] == "==" else tr))
             r = ld.reachable(0, removed_edges=zero_edges)
             some_ok = v == ({"lz": -1}, nb) and bool(zero_edges) and blk not in r
+    if not some_ok:
+        # `Some(256 - lz).filter(|&d| d != 0)`
+        re_ = canon(p.local(0))
+        if re_[0] == "call" and short(re_[1]).endswith("Option::filter") and len(re_[2]) == 2:
+            inner = canon(re_[2][0])
+            pred = closure_return_in_caller_terms(facts, re_[2][1], [("unknown", "payload")])
+            c_ = comparison(pred) if pred is not None else None
+            if inner[0] == "agg" and inner[1].endswith("Option::Some") and linear(dict(inner[2])["0"], lz) == ({"lz": -1}, nb) and c_ and c_[0] == "!=" and \
+                    {fmt_short(c_[1]), fmt_short(c_[2])} >= {"0"} and any(x == ("unknown", "payload") for x in (canon(c_[1]), canon(c_[2]))):
+                some_ok = True
     rule.check(some_ok, "log2_distance = Some(256 - leading_zeros) except None at 0", "log2_distance|form",
                "Key::log2_distance no longer equals 256 - leading_zeros(xor) with None for distance 0", loc=ld.loc(ld.line))
     # nodes_by_distances
@@ -456,6 +477,21 @@ def r3(ctx):
                     hi_edges.append((bi, edge))
         ok = bool(yes) and bool(lo_edges) and bool(hi_edges) and \
             not any(s_ in fc.reachable(0, removed_edges=lo_edges) for s_ in yes) and not any(s_ in fc.reachable(0, removed_edges=hi_edges) for s_ in yes)
+        if not ok and kind == "filter" and yes:
+            # a predicate whose last conjunct is the returned value itself (`0 < d && d <= N`): that conjunct bounds d where it is true
+            ok = True
+            for lhs, k_, payload, blk, _l in p.defs.get(0, ()):
+                if blk not in yes:
+                    continue
+                val = p.rvalue(payload, blk) if k_ == "rv" else None
+                nc = normalised_cmp(val, darg) if val is not None else None
+                lo_v = hi_v = None
+                if nc and set(nc[0]) == {"d"} and nc[2] not in ("==", "!="):
+                    ivs = cmp_intervals(nc[0]["d"], nc[1], nc[2])
+                    lo_v, hi_v = ivs[0]
+                lo_ok = (lo_v is not None and lo_v >= 1) or (bool(lo_edges) and blk not in fc.reachable(0, removed_edges=lo_edges))
+                hi_ok = (hi_v is not None and hi_v <= nb) or (bool(hi_edges) and blk not in fc.reachable(0, removed_edges=hi_edges))
+                ok = ok and lo_ok and hi_ok
         if not ok:
             # `(1..=NUM_BUCKETS).contains(d)` as the whole predicate
             rv = p.local(0)
